@@ -65,13 +65,17 @@ if P and P.get('kind') == 'hist':
             return Lark(G_PLAIN, parser='earley', lexer='dynamic')
         if CFG == 'earley-basic':
             return Lark(G_PLAIN, parser='earley', lexer='basic')
+        if CFG == 'lalr-multistart':
+            return Lark(G_PLAIN, parser='lalr', lexer='contextual', start=['start', 'expr'])
         return Lark(G_INDENT, parser='lalr', lexer='contextual' if CFG == 'indent-ctx' else 'basic', postlex=TreeIndenter())
     INDENT = CFG.startswith('indent')
     PROBES = PROBES_INDENT if INDENT else PROBES_PLAIN
     SHARED = make()
     FRESH = make()
     LALR = CFG.startswith('lalr') or INDENT
-    NOPS = 9
+    MULTI = CFG == 'lalr-multistart'
+    PKW = {'start': 'start'} if MULTI else {}        # probes (and the usual operations) use the first start symbol
+    NOPS = 10 if MULTI else 9
     PIN = P.get('pin')
     MAXOPS = P.get('maxops', 3)
     NPROBES = P.get('nprobes', len(PROBES))
@@ -83,12 +87,18 @@ if P and P.get('kind') == 'hist':
             return ('error', type(e).__name__, getattr(e, 'pos_in_stream', None))
 
     def _outcome(lk, text):
-        # the probe observes parse() and lex() of the same text
+        # the probe observes parse() and lex() of the same text; for LALR also the accepts set of a rejection
         try:
-            a = hs.outcome(lk.parse, text)
+            a = hs.outcome(lk.parse, text, **PKW) if not PKW else hs.outcome(lambda t: lk.parse(t, **PKW), text)
         except DedentError as e:
             a = ('error', 'DedentError', str(e))
-        return (a, _lexed(lk, text))
+        acc = None
+        if LALR and not INDENT and a[0] == 'error' and a[1] == 'UnexpectedToken':
+            try:
+                lk.parse(text, **PKW)
+            except UnexpectedInput as e:
+                acc = sorted(e.accepts)
+        return (a, _lexed(lk, text), acc)
     REF = {}
 
 
@@ -96,29 +106,29 @@ def _do_op(lk, op):
     good, bad = (PROBES[3 if INDENT else 6], PROBES[7 if INDENT else 3])
     try:
         if op == 0:
-            lk.parse(good)
+            lk.parse(good, **PKW)
         elif op == 1:
-            lk.parse(bad)
+            lk.parse(bad, **PKW)
         elif op == 2:
             g = lk.lex(good)
             next(g)
             del g
         elif op == 3:
             if LALR and not INDENT:
-                g = lk.scan('zz ' + good + ' !! ' + good)
+                g = lk.scan('zz ' + good + ' !! ' + good, **PKW)
                 next(g)
                 del g
             else:
-                lk.parse(PROBES[1])
+                lk.parse(PROBES[1], **PKW)
         elif op == 4:
             if LALR:
-                ip = lk.parse_interactive(good)
+                ip = lk.parse_interactive(good, **PKW)
                 it = ip.iter_parse()
                 next(it)
                 next(it)
                 del it, ip
             else:
-                lk.parse(PROBES[2])
+                lk.parse(PROBES[2], **PKW)
         elif op == 5:
             Lark('start: "a" NAME\nNAME: /[a-z]+/\n%ignore " "', parser='lalr').parse('a b')
         elif op == 6:
@@ -128,14 +138,20 @@ def _do_op(lk, op):
                     next(g)
                 del g
             else:
-                lk.parse(PROBES[0] + ' ' + bad)
+                lk.parse(PROBES[0] + ' ' + bad, **PKW)
         elif op == 7:
-            if LALR and not INDENT and CFG != 'lalr-ctx-callbacks':
-                Reconstructor(lk).reconstruct(lk.parse(good))
+            if LALR and not INDENT and CFG not in ('lalr-ctx-callbacks', 'lalr-multistart'):
+                Reconstructor(lk).reconstruct(lk.parse(good, **PKW))
             else:
-                lk.parse(bad)
+                lk.parse(bad, **PKW)
         elif op == 8:
             list(lk.lex(good, dont_ignore=True))
+        elif op == 9:
+            # (several start symbols) a rejected parse from the other start symbol whose accepts set is looked at
+            try:
+                lk.parse('x +', start='expr')
+            except UnexpectedInput as e:
+                e.accepts
     except (UnexpectedInput, DedentError, StopIteration):
         pass
 
@@ -350,8 +366,8 @@ def sched(sw: List[int], ca: int, cb: int) -> bool:
 def plan(tier, seed):
     quick = tier == 'quick'
     slices = []
-    for cfg in ('lalr-ctx-callbacks', 'lalr-basic', 'earley-dynamic', 'earley-basic', 'indent-ctx', 'indent-basic'):
-        for pin in range(9):
+    for cfg in ('lalr-ctx-callbacks', 'lalr-basic', 'earley-dynamic', 'earley-basic', 'indent-ctx', 'indent-basic', 'lalr-multistart'):
+        for pin in range(10 if cfg == 'lalr-multistart' else 9):
             slices.append({'id': 'hist:%s:ops<=%d:first%d' % (cfg, 3 if quick else 4, pin), 'func': 'hist',
                            'params': {'kind': 'hist', 'cfg': cfg, 'pin': pin, 'maxops': 3 if quick else 4, 'nprobes': 6 if quick else 10}, 'mode': 'realised', 'timeout': 400 if quick else 3000,
                            'twin': pin == 8 and cfg == 'lalr-basic', 'bound': {'ops': 3 if quick else 4, 'op_kinds': 9, 'probes': 6 if quick else 10}})
